@@ -443,6 +443,19 @@ def check_structure(ck, prog, fn, cls, name, comps, node):
             elif isinstance(t.ops[0], (ast.Lt,)) and is_max_len_subs(l):
                 polarity = False
     if polarity is None:
+        mentions = {n.id for n in ast.walk(t) if isinstance(n, ast.Name)}
+        extra_measure = len(fn.params) > 2      # e.g. a depth parameter
+        if name not in mentions and not extra_measure:
+            # the only available measure is the list size and the quadrant lists are filters
+            # (len(sub) <= len(node)); a guard that does not look at them cannot establish a
+            # strict decrease: boxes the split cannot separate (duplicates, nested, crossing at
+            # one point) recurse forever
+            ck.ob('C14-D5-termination', 'Index.__init__::recursion-guarded', False,
+                  'the decision between leaf and subtrees (%s) does not compare the quadrant '
+                  'lists with the node: a quadrant as large as the node recurses forever (no '
+                  'strictly decreasing measure)' % ast.unparse(t), fn.loc(target_if),
+                  key='Index.__init__::recursion-guard')
+            return
         raise AnalysisError('leaf test is not a comparison of max(len(sub)) with len(%s): %s'
                             % (param, ast.unparse(t)))
     leaf_body = target_if.body if polarity else target_if.orelse
